@@ -1,4 +1,4 @@
-SOURCE_COMMITS = ["d2e4e29 fix: wake all waiting accepts when a connection is released (unguarded repair, C18)", "1519567 fix: make validatePositive reject non-positive integers, check subnet key lengths (unguarded repair, C20)", "0f1a30e fix: serve zero TTL from the simple cache when no time is left (unguarded repair, C04)"]
+SOURCE_COMMITS = ["d2e4e29 fix: wake all waiting accepts when a connection is released (unguarded repair, C18)", "1519567 fix: make validatePositive reject non-positive integers, check subnet key lengths (unguarded repair, C20)", "0f1a30e fix: serve zero TTL from the simple cache when no time is left (unguarded repair, C04)", "e93dce2 fix: unpack only the received bytes of a DoQ message (unguarded repair, C06)", "333808d fix: unpack only the received bytes of a plain upstream reply (unguarded repair, C06)"]
 
 claim("C09",
       "Bounded symbolic execution of the real RequestCounter/ring buffer against a sliding-window-log reference: for every interval and every non-decreasing timestamp sequence within the bound the SMT solver shows Add's verdict equals the reference. Bounded (events, limit), full-width values.",
@@ -19,3 +19,8 @@ claim("C04",
       "Bounded symbolic execution of both response caches: the TTL recomputation of the simple cache (float64 kernel, FloatingPoint theory, cvc5) and of the ECS cache (integer kernel, cvc5 bv-as-int) for every 32-bit TTL and every nanosecond age; injectivity of the ECS cache key over qtype/qclass/DO/family/subnet/declined (maphash as an uninterpreted function); and the store/hit path of the ECS cache for an answer grammar (rcode, TC, answer kinds, SOA, TTL 0) against a reference cacheability predicate, with expiry and AD gating.",
       "Trusted: symgo + models (time.Now as a harness-set clock, sync.Pool, maphash UF with the stated no-collision assumption), one-slot cache stub honouring the agdcache contract (LRU eviction internals outside the claim), cvc5/z3. Bounds: one record per section, one store followed by one lookup.",
       "DESIGN.md 3 C04")
+
+claim("C06",
+      "Self-composition by symbolic execution of the real receive paths (ServerQUIC.readQUICMsg, ServerDNS.acceptUDPMsg/acceptTCPMsg incl. getTCPBuffer, UpstreamPlain.readMsg for UDP and TCP) followed by the real miekg Unpack: the same symbolic message bytes are read once by a server whose pooled buffer holds arbitrary stale bytes and once by a fresh server; the solver must show that accept/reject and every decoded header/question field agree.",
+      "Trusted: symgo, its sync.Pool model in LIFO mode (the mode that exposes stale buffers), the inline worker-pool stub, z3. Bounds: messages of 12..17 bytes (quick) with QDCOUNT<=2 and no other records, body alphabet {0..3, a-z}, 6 symbolic stale bytes, 64-byte DNS pool buffers; DoH body path not encoded (net/http); concurrent sharing of a buffer (data races) outside the claim.",
+      "DESIGN.md 3 C06")
